@@ -172,6 +172,35 @@ def run(ctx):
         pr = set(a.key for a in ogq.of_operand(m["rule_id"], deep=True) if a.kind == "param")
         rep.check(ps == {2} and pr == {3}, "C01.R1", "enqueue:thin-key-fields", "thin key fields come from the (scope, rule) parameters",
                   "RewriteThin.scope_be32/rule_id derive from params %s/%s" % (sorted(ps), sorted(pr)), site=enq.loc())
+    # dedupe-index position stability: `index` stores positions into `thin`; an operation that moves/removes elements of `thin`
+    # must be followed by `index.clear()` before returning (drain does), or the function must re-point the displaced key too
+    # (>= 2 index writes).  Otherwise a later duplicate enqueue lands on another candidate's record.
+    PT = SCHED + "PendingTx"
+    MOVERS = r"Vec::<T, A>::(swap_remove|remove|insert|retain|retain_mut|truncate|dedup\w*|drain|split_off|clear)$|slice::<impl \[T\]>::(sort\w*|reverse|swap|rotate\w*|copy_from_slice)$|PendingTx::<P>::radix_sort$"
+    n_movers = 0
+    for f in prog.find_fns(r"^warp_core::scheduler::PendingTx::<P>::"):
+        if f.is_closure():
+            continue
+        ogf = f.origins()
+        movers = []
+        for bi, t in f.calls():
+            c = f.callee_of(t) or ""
+            if re.search(MOVERS, c) and not f.blocks[bi]["cl"]:
+                recv = ogf.of_operand(t["args"][0], deep=True) if t["args"] else frozenset()
+                if c.endswith("radix_sort") or any(steps_have(a, "PendingTx", "thin") for a in recv):
+                    movers.append(bi)
+        if not movers or f.name == "radix_sort":
+            continue
+        n_movers += 1
+        clears = [bi for bi, t in f.calls() if re.search(r"BTreeMap.*::clear$", f.callee_of(t) or "") and any(steps_have(a, "PendingTx", "index") for a in ogf.of_operand(t["args"][0], deep=True))]
+        idx_writes = [bi for bi, t in f.calls() if re.search(r"BTreeMap.*::(insert|get_mut|remove|entry)$", f.callee_of(t) or "") and any(steps_have(a, "PendingTx", "index") for a in ogf.of_operand(t["args"][0], deep=True))]
+        rets = f.return_blocks()
+        w = f.path([f.blocks[movers[0]]["t"].get("tgt") or movers[0]], rets, avoid_blocks=clears)
+        okm = (w is None) or len(idx_writes) >= 2
+        rep.check(okm, "C01.R1", "dedupe-index:positions-stable:%s" % f.name, "thin is reordered only where the index is cleared afterwards (or the displaced key is re-pointed)",
+                  "%s moves elements of `thin` (%s) without clearing the dedupe index or re-pointing the displaced key: a later duplicate enqueue overwrites a different candidate" % (
+                      f.name, [(f.callee_of(f.blocks[b]["t"]) or "").rsplit("::", 1)[-1] for b in movers]), site=f.loc())
+    rep.check(n_movers >= 1, "C01.R1", "dedupe-index:movers-found", "%d PendingTx function(s) reorder thin (drain)" % n_movers, "no function reorders thin (drain vanished?)", site=PT)
     renq = prog.fn(SCHED + "RadixScheduler::enqueue")
     ogr = renq.origins()
     for b in renq.call_sites(r"PendingTx::<P>::enqueue$"):
